@@ -1,71 +1,78 @@
 """Development tool (not a registered check): run ALL checks against behaviour-preserving refactorings.
 
 For each <dir>/<id>/patch.diff: scratch worktree of /repo HEAD (outside /repo and /verif, removed afterwards), apply the
-patch, optionally run the 81 tests on it (PYTHONPATH=<wt>/src), then run `python -m ubcheck <every property>` with
-UBCHECK_SRC pointing at the worktree.  Every non-zero exit is a false alarm (rc=1) or a robustness failure (rc=2)
-of the machinery - the refactoring is supposed to leave every property intact.
-usage: benign.py [--dir DIR] [--tests] [--props C01,C02] [ids...]"""
+patch, optionally run the 81 tests on it (PYTHONPATH=<wt>/src), then run `python -m ubcheck all` with UBCHECK_SRC
+pointing at the worktree.  Every non-zero result is a false alarm (rc=1) or a robustness failure (rc=2) of the
+machinery - the refactoring is supposed to leave every property intact.
+usage: benign.py [--dir DIR] [--tests] [--jobs N] [--json FILE] [ids...]"""
 import argparse, json, os, re, shutil, subprocess, sys, tempfile
 from concurrent.futures import ThreadPoolExecutor
 
 ap = argparse.ArgumentParser()
 ap.add_argument("--dir", default="/verif/benign")
 ap.add_argument("--tests", action="store_true")
-ap.add_argument("--props", default="all")
+ap.add_argument("--jobs", type=int, default=16)
 ap.add_argument("--json", default=None)
 ap.add_argument("ids", nargs="*")
 a = ap.parse_args()
 ids = a.ids or sorted(os.listdir(a.dir))
-allprops = sorted(f[:-3].upper() for f in os.listdir("/verif/ubcheck/rules") if re.fullmatch(r"c\d\d\.py", f))
-props = allprops if a.props == "all" else a.props.split(",")
 
 
-def one_check(wt, out, p):
-    env = dict(os.environ, UBCHECK_SRC=os.path.join(wt, "src"), UBCHECK_OUT=out)
-    r = subprocess.run(["/venv/bin/python", "-m", "ubcheck", p], cwd="/verif", env=env, capture_output=True, text=True)
-    rules = sorted({w.split("=")[1] for line in r.stdout.splitlines() if "rule=" in line for w in line.split() if w.startswith("rule=")})
-    msg = f"rc={r.returncode} {','.join(rules)}"
-    if r.returncode == 2:
-        msg += " " + " ".join(l for l in r.stdout.splitlines() if l.startswith("ANALYSIS-ERROR"))[:400]
-    detail = [l for l in r.stdout.splitlines() if "rule=" in l][:6]
-    return p, r.returncode, msg, detail
-
-
-results = {}
-bad = 0
-for sid in ids:
+def one(sid):
     d = os.path.join(a.dir, sid)
     patch = os.path.join(d, "patch.diff")
     if not os.path.exists(patch):
-        continue
+        return sid, None, []
     wt = tempfile.mkdtemp(prefix="ubben_"); os.rmdir(wt)
     out = tempfile.mkdtemp(prefix="ubout_")
     subprocess.run(["git", "-C", "/repo", "worktree", "add", "-q", "--detach", wt, "HEAD"], check=True)
     try:
         r = subprocess.run(["git", "-C", wt, "apply", patch], capture_output=True, text=True)
         if r.returncode:
-            print(sid, "PATCH DOES NOT APPLY", r.stderr.strip()[:200]); results[sid] = "noapply"; continue
+            return sid, "noapply", [r.stderr.strip()[:200]]
         if a.tests:
             env = dict(os.environ, PYTHONPATH=os.path.join(wt, "src"))
             t = subprocess.run(["/venv/bin/python", "-m", "pytest", "-q", "-p", "no:cacheprovider", "--timeout=900"], env=env, capture_output=True, text=True, cwd=wt)
             tail = t.stdout.strip().splitlines()[-1] if t.stdout.strip() else ""
             if "81 passed" not in tail or t.returncode:
-                print(sid, "TESTS FAIL:", tail); results[sid] = "testsfail"; continue
-        with ThreadPoolExecutor(16) as ex:
-            res = list(ex.map(lambda p: one_check(wt, out, p), props))
-        flagged = [(p, m, det) for p, rc, m, det in res if rc]
-        results[sid] = {p: m for p, rc, m, det in res if rc}
-        if flagged:
-            bad += 1
-            print(sid, "ALARM", json.dumps({p: m for p, m, _ in flagged}))
-            for p, m, det in flagged:
-                for l in det:
-                    print("     ", l[:300])
-        else:
-            print(sid, "silent")
+                return sid, "testsfail", [tail]
+        env = dict(os.environ, UBCHECK_SRC=os.path.join(wt, "src"), UBCHECK_OUT=out)
+        r = subprocess.run(["/venv/bin/python", "-m", "ubcheck", "all"], cwd="/verif", env=env, capture_output=True, text=True)
+        res, detail, cur = {}, [], []
+        for line in r.stdout.splitlines():
+            mm = re.match(r"RESULT (C\d\d) rc=(\d)", line)
+            if mm:
+                if mm.group(2) != "0":
+                    rules = sorted({w.split("=")[1] for l in cur if "rule=" in l for w in l.split() if w.startswith("rule=")})
+                    errs = " ".join(l for l in cur if l.startswith("ANALYSIS-ERROR"))[:300]
+                    res[mm.group(1)] = f"rc={mm.group(2)} {','.join(rules)} {errs}".strip()
+                    detail += [l for l in cur if "rule=" in l][:4]
+                cur = []
+            else:
+                cur.append(line)
+        if r.returncode and not res:
+            res["?"] = "crash " + r.stderr[-300:]
+        return sid, res, detail
     finally:
         subprocess.run(["git", "-C", "/repo", "worktree", "remove", "--force", wt])
         shutil.rmtree(out, ignore_errors=True)
+
+
+results = {}
+bad = 0
+with ThreadPoolExecutor(a.jobs) as ex:
+    for sid, res, detail in ex.map(one, ids):
+        if res is None:
+            continue
+        results[sid] = res
+        if res:
+            bad += 1
+            print(sid, "ALARM", json.dumps(res)[:700])
+            for l in detail[:8]:
+                print("     ", l[:260])
+        else:
+            print(sid, "silent")
+        sys.stdout.flush()
 if a.json:
     json.dump(results, open(a.json, "w"), indent=1)
 print(f"{bad} of {len(results)} refactorings raised an alarm")
